@@ -248,8 +248,8 @@ def check_pair(ctext, iltext, il_subs, res, opts=None, optab=None):
         env = Env(D, optab)
         try:
             cst, fr, cscope, cx = run_c(D, env, ctext, res, opts)
-        except ILSortError as e:
-            return Result("gap", "C: operand table conflict: " + str(e))
+        except (ILSortError, z3.Z3Exception) as e:
+            return Result("gap", "C: operand table conflict: " + str(e)[:200])
         except Unsupported as u:
             return Result("c-unsupported", str(u))
         except CSyntaxError as e:
